@@ -33,7 +33,7 @@ RULE = (
     "k in {1,2} (k=3 on 2x2) for fidelity_of_separability.  A pair case is non-trivial when the states are complex, d >= 3, "
     "both ranks >= 2 and the family is non-commuting (generic, nearly equal) or, for the closed-form families, when "
     "d >= 3 and complex; a rejection case is always non-trivial (labelled by function and kind); a trace_norm case when "
-    "the matrix is complex, non-square and of rank >= 2; a fidelity_of_separability case when the dims are unequal or "
+    "the matrix has at least two non-zero singular values and is not a density matrix; a fidelity_of_separability case when the dims are unequal or "
     "k >= 2.  distinct = distinct SHA-1 of the canonical case JSON among non-trivial cases."
 )
 ASSUMPTIONS = [
@@ -778,10 +778,13 @@ def check_trace_norm(case):
 
 
 def nt_tn(case):
-    if case["kind"] in ("svd", "raw") and not case["real"] and case["rows"] != case["cols"] and (len(case["svals"]) >= 2 or (case["kind"] == "raw" and min(case["rows"], case["cols"]) >= 2)):
-        return f"trace_norm:{case['kind']},complex,rectangular,rank>=2"
-    if case["kind"] == "hermitian" and not case["real"] and len(case["svals"]) >= 2 and case["rows"] >= 3:
-        return "trace_norm:hermitian,indefinite,complex"
+    m, n = case["rows"], case["cols"]
+    if case["kind"] == "raw" and min(m, n) >= 2:
+        return "trace_norm:raw,rank>=2"
+    if case["kind"] == "svd" and len(case["svals"]) >= 2:
+        return "trace_norm:svd,rank>=2" + (",rectangular" if m != n else "")
+    if case["kind"] == "hermitian" and min(len(case["svals"]), m) >= 2:
+        return "trace_norm:hermitian,indefinite,rank>=2"
     return None
 
 
